@@ -218,6 +218,7 @@ type WriterPlan struct {
 	FailAt   int  // fail once this many bytes were accepted; -1 never
 	Short    bool // deliver the failure as a short write (n<len(p), err) when possible
 	ReaderFrom bool // expose io.ReaderFrom
+	Transient  bool // the failing Write fails once (accepting nothing); later calls succeed again
 }
 
 // SimWriter records everything it accepts.
@@ -231,6 +232,7 @@ type SimWriter struct {
 	Failed   bool
 	CallsAfterFail int
 	UsedReadFrom bool
+	FailedOnce   bool // a transient failure was delivered
 	OnCall   func() // scheduler yield hook
 }
 
@@ -265,7 +267,17 @@ func (w *SimWriter) Write(p []byte) (int, error) {
 	if len(p) == 0 {
 		return 0, nil // zero-length writes succeed even on a full device
 	}
+	if w.plan.Transient && w.FailedOnce {
+		w.CallsAfterFail++
+		w.Accepted = append(w.Accepted, p...)
+		return len(p), nil
+	}
 	if w.plan.FailAt >= 0 && len(w.Accepted)+len(p) > w.plan.FailAt {
+		if w.plan.Transient {
+			w.FailedOnce = true
+			w.c.Fault("write-error-transient")
+			return 0, ErrInjectedTransient
+		}
 		room := w.plan.FailAt - len(w.Accepted)
 		w.Failed = true
 		if w.plan.Short && room > 0 {
